@@ -209,30 +209,42 @@ def Sys.run (s : Sys) : List Op → Sys
 
 /-! ## block_timeout (executor.rs:18-54) -/
 
-/-- what one iteration of the loop observes: the poll result, the time elapsed since the start when the remaining
-    timeout is computed, and how long after that the waker fires (`none` = never) -/
-structure Round where
-  ready : Bool
-  elapsed : Nat
-  wakeAfter : Option Nat
-  deriving DecidableEq, Repr
-
 inductive BtRes where
   | ok
   | timeout
-  /-- the list of observations ended while the loop was still running -/
+  /-- no poll was made (empty wake-up sequence) -/
   | running
   deriving DecidableEq, Repr
 
-/-- the loop executor.rs:37-53: `Poll::Ready` → `Ok`; otherwise `duration.checked_sub(elapsed)`: `None` → `Timeout`;
-    `Some(t)` → `recv_timeout(t)`: a wake within `t` → next iteration, otherwise `Timeout` -/
-def blockTimeout (duration : Nat) : List Round → BtRes
-  | [] => .running
-  | r :: rs =>
-    if r.ready then .ok
-    else if duration < r.elapsed then .timeout
-    else match r.wakeAfter with
-      | none => .timeout
-      | some d => if d ≤ duration - r.elapsed then blockTimeout duration rs else .timeout
+/-- One element per iteration of the loop executor.rs:37-53: `(now, ready)` = the time since `start_instant` at which
+    the iteration runs (the first one right after the start, every later one when the waker has fired) and what the
+    poll returns. The decision logic, as coded: `Poll::Ready` → `Ok`. Otherwise the remaining time is computed FROM THE
+    START: `duration.checked_sub(now)`; `None` (`now > duration`) → `Timeout` at once; `Some(t)` →
+    `recv_timeout(t)`, i.e. wait for the next wake-up until the fixed deadline `start + duration`: if the next wake-up
+    comes at `next ≤ duration` the loop iterates at `next`, otherwise (later, or never) `Timeout` at the deadline.
+    Returns the result and the time at which it is returned. -/
+def blockTimeout (duration : Nat) : List (Nat × Bool) → BtRes × Nat
+  | [] => (.running, 0)
+  | (now, ready) :: rest =>
+    if ready then (.ok, now)
+    else if duration < now then (.timeout, now)
+    else match rest with
+      | [] => (.timeout, duration)
+      | (next, r) :: rest' =>
+        if next ≤ duration then blockTimeout duration ((next, r) :: rest') else (.timeout, duration)
+
+/-- NOT the code: the same loop with a mutable remaining budget from which the time since the START is subtracted
+    again in every iteration (a plausible refactoring). Kept only to show that the property below is not trivially
+    true of any such loop: it returns `Timeout` long before the duration is over. -/
+def blockTimeoutBudget (budget : Nat) : List (Nat × Bool) → BtRes × Nat
+  | [] => (.running, 0)
+  | (now, ready) :: rest =>
+    if ready then (.ok, now)
+    else if budget < now then (.timeout, now)
+    else match rest with
+      | [] => (.timeout, now + (budget - now))
+      | (next, r) :: rest' =>
+        if next - now ≤ budget - now then blockTimeoutBudget (budget - now) ((next, r) :: rest')
+        else (.timeout, now + (budget - now))
 
 end DustVerif.Timer
